@@ -121,7 +121,13 @@ def sensitivity(seed, only=None, budget=30):
             shutil.rmtree(d, ignore_errors=True)
     if not only:
         os.makedirs(EVIDENCE_DIR, exist_ok=True)
-        json.dump({"seed": seed, "budget_s": budget, "results": results}, open(os.path.join(EVIDENCE_DIR, "sensitivity.json"), "w"), indent=1)
-    bad = [r for r in results if (r["status"] == "detected") != r.get("expected_detect", True)]
-    print(f"sensitivity: {len(results)} mutants, {len(results) - len(bad)} as expected, {len(bad)} not")
+        json.dump({"seed": seed, "budget_s": budget, "note": "per change: detected when any of its listed checks reports an unlisted violation; the first listed check is the property the change was written against", "results": results}, open(os.path.join(EVIDENCE_DIR, "sensitivity.json"), "w"), indent=1)
+    # a change may list several checks (the property it was written against first, then others that
+    # were seen to catch it as well): it counts as detected when ANY of them reports it
+    groups = {}
+    for r in results:
+        g = groups.setdefault(r["mutant"], {"expect": r.get("expected_detect", True), "detected": False})
+        g["detected"] = g["detected"] or r["status"] == "detected"
+    bad = sorted(m for m, g in groups.items() if g["detected"] != g["expect"])
+    print(f"sensitivity: {len(groups)} changes ({len(results)} check runs), {len(groups) - len(bad)} as expected, {len(bad)} not: {bad}")
     return 0
